@@ -263,7 +263,8 @@ def check(ctx):
     else:
         nf_done = False
     loops = [n for n in own_walk(nf.node) if isinstance(n, ast.For)] if not nf_done else []
-    ok = nf_done or (len(loops) == 1 and ast.unparse(loops[0].iter) == f"range({npar})")
+    from .common import origin_of
+    ok = nf_done or (len(loops) == 1 and ast.unparse(origin_of(nf.node, loops[0].iter)) == f"range({npar})")      # (also `attempts = range(n)` first)
     ctx.ob("R11-d", nf, "notify(n) makes at most n attempts", ok, detail="" if ok else "the notify loop is not `for _ in range(n)`", by=(f"range({npar})",))
     deq, both = wakes(nf, {id(l) for l in loops}, ("for_iter",), "each dequeued waiter is woken, one per iteration") if loops else ([], [])
     sites_ = [s_ for s_, _ in deq] + [s_ for s_, _ in both]
@@ -272,7 +273,11 @@ def check(ctx):
         ctx.ob("R11-d", nf, "dequeue happens inside the bounded loop", inloop, by=("in loop",), detail="" if inloop else "popleft outside the range(n) loop")
         hs = [h for h in own_walk(nf.node) if isinstance(h, ast.ExceptHandler) and h.type is not None and ast.unparse(h.type) in ("IndexError", "LookupError")]
         if hs:
-            okb = any(isinstance(b, (ast.Break, ast.Return)) for b in hs[0].body)
+            # (the handler leaves the loop itself, or the `try` encloses the whole loop and the error carries control out of it)
+            tr_ = getattr(hs[0], "_parent", None)
+            okb = any(isinstance(b, (ast.Break, ast.Return)) for b in hs[0].body) or \
+                (isinstance(tr_, ast.Try) and any(l_ is y for l_ in loops for s2 in tr_.body for y in ast.walk(s2))
+                 and not any(isinstance(b, (ast.Continue, ast.While, ast.For)) for s2 in hs[0].body for b in ast.walk(s2)))
             ctx.ob("R11-d", nf, "notify stops when no waiter is left", okb, detail="" if okb else "an empty queue does not end notify()", by=("except IndexError: break",))
         else:
             for s_ in sites_:
@@ -283,22 +288,37 @@ def check(ctx):
     loops = [] if na_done else [n for n in own_walk(na.node) if isinstance(n, ast.For) and ast.unparse(n.iter) in ("self._waiters", "list(self._waiters)", "tuple(self._waiters)")
              and isinstance(n.target, ast.Name) and any(P(f"{n.target.id}.set()").match(b) is not None for b in n.body)]
     drains = [n for n in own_walk(na.node) if isinstance(n, ast.While)]
+    # the snapshot form: `events = list(self._waiters); self._waiters.clear(); for event in events: event.set()` (snapshot, clear, wake)
+    snapdefs = {u(e_["T"]): s_ for pat_ in ("$T = list(self._waiters)", "$T = tuple(self._waiters)") for s_, e_ in ctx.sites(na, pat_) if isinstance(e_["T"], ast.Name)}
+    snaploops = [] if na_done else [n for n in own_walk(na.node) if isinstance(n, ast.For) and isinstance(n.iter, ast.Name) and n.iter.id in snapdefs
+                                    and isinstance(n.target, ast.Name) and any(P(f"{n.target.id}.set()").match(b) is not None for b in n.body)
+                                    and not any(isinstance(x, (ast.Break, ast.Return)) for x in ast.walk(n))]
     if na_done:
         pass
-    elif loops or not drains:
-        ctx.ob("R11-d", na, "notify_all sets every queued event", len(loops) == 1, detail="" if loops else "no loop setting every event of self._waiters",
+    elif loops or snaploops or not drains:
+        ctx.ob("R11-d", na, "notify_all sets every queued event", len(loops) + len(snaploops) == 1, detail="" if (loops or snaploops) else "no loop setting every event of self._waiters",
                by=("for event in self._waiters: event.set()",))
 
         def step_a(st, e, c):
             if c.is_exc:
                 return st
-            if e == "clear" and "loop" not in st:
-                return Bad("the waiter queue is cleared before its events were set")
-            return st | {e}
+            if e == "clear" and "loop" not in st and "snap" not in st:
+                return Bad("the waiter queue is cleared before its events were set (or remembered)")
+            if e == "snaploop" and "snap" not in st:
+                return Bad("the events that are set are not a snapshot of the waiter queue")
+            if e == "snap" and "clear" in st:
+                return Bad("the snapshot of the waiter queue is taken after the queue was cleared")
+            return st | {"loop" if e == "snaploop" else e}
 
         ids2 = {id(l) for l in loops}
-        ctx.paths("R11-d", na, [("loop", [lambda frag, node: node.kind == "for_iter" and id(node.node) in ids2]), ("clear", "self._waiters.clear()")],
-                  step_a, frozenset(), lambda k, st, f: ("notify_all leaves woken waiters in the queue" if k == "return" and "clear" not in st else None),
+        ids3 = {id(l) for l in snaploops}
+        sdef = {id(s_) for s_ in snapdefs.values()}
+        ctx.paths("R11-d", na, [("loop", [lambda frag, node: node.kind == "for_iter" and id(node.node) in ids2]),
+                                ("snaploop", [lambda frag, node: node.kind == "for_iter" and id(node.node) in ids3]),
+                                ("snap", [lambda frag, node: frag is not None and id(frag) in sdef or id(getattr(node, "node", None)) in sdef]),
+                                ("clear", "self._waiters.clear()")],
+                  step_a, frozenset(), lambda k, st, f: (("notify_all leaves woken waiters in the queue" if "clear" not in st else
+                                                          "notify_all returns without having set the queued events" if "loop" not in st else None) if k == "return" else None),
                   instance="set all, then clear")
     else:
         # draining form: `while self._waiters: self._waiters.popleft().set()` - every dequeued waiter is woken, and the only way out is an empty queue
